@@ -45,7 +45,10 @@ def handle : Handler := fun op args =>
   | "c06.gammaln" => withArgs pRat args fun x =>
       if x ≤ 0 then "err" else "ok " ++ showRat (lanczosSum x)
   | "c06.gamma" => withArgs pRat args fun x =>
-      if x ≤ 0 then "err" else "ok " ++ showRat (lanczosSum x)
+      -- `Gamma` = own guard + `std::tgamma` (fix a972610): no rational core, the outcome only
+      match gamma ⟨fun _ => 0, fun _ => 0, fun _ => 0, fun _ _ => 0, fun _ => 1⟩ x with
+      | .error _ => "err"
+      | .ok _ => "ok tgamma"
   | "c06.pser" => withArgs (do let x ← pRat; let a ← pRat; pure (x, a)) args fun (x, a) =>
       if a ≤ 0 ∨ x ≤ 0 then "undef" else showSeries x a
   | "c06.qcf" => withArgs (do let x ← pRat; let a ← pRat; pure (x, a)) args fun (x, a) =>
